@@ -86,6 +86,13 @@ type Exec struct {
 	inTolerantInit bool
 	aliases    map[*Object][]aliasRec
 	guards     []guardRec
+	// interpreted goroutines
+	threads    []*thread
+	curThread  *thread
+	crashed    *goPanic
+	crashedIn  string
+	schedTrace []string
+	maxSched   int
 }
 
 type aliasRec struct {
@@ -113,6 +120,7 @@ type Options struct {
 	MaxSteps     int
 	MaxCallDepth int
 	AppendFork   bool // fork append growth over {needed, 2*needed}
+	Threads      bool // interpret go statements as schedulable threads
 	Verbose      bool
 }
 
@@ -635,9 +643,17 @@ func (ex *Exec) exec(fr *frame, instr ssa.Instruction) {
 			panic(gp)
 		}
 	case *ssa.Send:
-		ex.chanSend(ex.get(fr, in.Chan).(*ChanVal), ex.get(fr, in.X))
+		if ex.curThread != nil {
+			ex.tSend(ex.get(fr, in.Chan).(*ChanVal), ex.get(fr, in.X))
+		} else {
+			ex.chanSend(ex.get(fr, in.Chan).(*ChanVal), ex.get(fr, in.X))
+		}
 	case *ssa.Select:
-		fr.env[in] = ex.selectOp(fr, in)
+		if ex.curThread != nil {
+			fr.env[in] = ex.tSelect(fr, in)
+		} else {
+			fr.env[in] = ex.selectOp(fr, in)
+		}
 	case *ssa.Range:
 		fr.env[in] = ex.rangeInit(ex.get(fr, in.X))
 	case *ssa.Next:
@@ -954,7 +970,13 @@ func (ex *Exec) unop(fr *frame, in *ssa.UnOp) Value {
 	case token.XOR:
 		return BNot(x.(*Term))
 	case token.ARROW:
-		v, ok := ex.chanRecv(x.(*ChanVal))
+		var v Value
+		var ok bool
+		if ex.curThread != nil {
+			v, ok = ex.tRecv(x.(*ChanVal))
+		} else {
+			v, ok = ex.chanRecv(x.(*ChanVal))
+		}
 		if in.CommaOk {
 			return Tuple{v, Bool(ok)}
 		}
